@@ -118,7 +118,7 @@ prop('C01',
       ('R38', rr.r38_first_and_last_action), ('R51', nm.r51_no_unbound_names), ('R28', ps.r28_strip_complete),
       # R13: the quota form is what keeps seats+1 candidates from all reaching the quota (more winners than seats);
       # R18: a sure-loser batch holds only candidates that cannot be elected (mpls caps it with the write-ins counted in, see F2(i))
-      ('R13', qt.r13_quota), ('R18', ti.r18_sure_loser_strict), ('R12', mk.r12_iteration_exits), ('R53', nm.r53_rule_interface), ('R56', nm.r56_index_in_range)],
+      ('R13', qt.r13_quota), ('R18', ti.r18_sure_loser_strict), ('R12', mk.r12_iteration_exits), ('R53', nm.r53_rule_interface), ('R56', nm.r56_index_in_range), ('R48', gs.r48_no_global_writer)],
      'Static analysis of /repo source over the count() of every registered rule class (CFG path rules with a small '
      'path-sensitive fact domain, candidate-derivation dataflow): every path to the end of count() completes a total '
      'elect-or-defeat sweep; every elect site is justified by a quota test, a seat guard or a pending receiver; every batch '
@@ -164,7 +164,7 @@ prop('C17',
 prop('C18',
      [('R37', rr.r37_status_changes_logged), ('R38', rr.r38_first_and_last_action), ('R39', rr.r39_tag_agreement),
       ('R40', rr.r40_action_key_flow), ('R41', rr.r41_renderers_read_record), ('R42', rr.r42_dump_arity),
-      ('R03', bt.r03_duplicates), ('R05', cf.r05_status_ownership), ('R44', it.r44_append_only), ('R53', nm.r53_rule_interface), ('R57', rr.r57_recorded_sources), ('R25', va.r25_printing)],
+      ('R03', bt.r03_duplicates), ('R05', cf.r05_status_ownership), ('R44', it.r44_append_only), ('R53', nm.r53_rule_interface), ('R57', rr.r57_recorded_sources), ('R25', va.r25_printing), ('R48', gs.r48_no_global_writer)],
      'Static analysis of /repo source: elect/defeat log themselves on every path; the first recorded action of every rule '
      'is begin/count/round and the end action is followed directly by the result assignment; tags agree between emitters, '
      'recorder and renderers; renderers and rule hooks read only action keys that the recorder stores for that kind of '
@@ -227,7 +227,7 @@ prop('C14',
      ['digit-exactness of the printed string for a given value (needs evaluation)'])
 prop('C07',
      [('R00', cf.r00_helper_semantics), ('R15', ti.r15_tie_funnel), ('R16', ti.r16_extremum_polarity), ('R17', ti.r17_single_from_breaktie),
-      ('R18', ti.r18_sure_loser_strict), ('R03', bt.r03_batch_cap), ('R55', gr.r55_qpq_stage), ('R59', op.r59_enum_options)],
+      ('R18', ti.r18_sure_loser_strict), ('R03', bt.r03_batch_cap), ('R55', gr.r55_qpq_stage), ('R59', op.r59_enum_options), ('R48', gs.r48_no_global_writer)],
      'Static analysis of /repo source: the tie order is consulted only inside the rules\' breakTie functions, which log '
      'every tie among several candidates and return the first in the declared order; the set handed to breakTie for an '
      'exclusion is the arg-min set of the tally over the hopefuls (within the surplus for Meek), for a surplus the arg-max '
@@ -240,7 +240,7 @@ prop('C07',
 
 prop('C11',
      [('R15', ti.r15_tie_funnel), ('R17', ti.r17_single_from_breaktie), ('R05', cf.r05_status_ownership),
-      ('R28', ps.r28_strip_complete), ('R26', ps.r26_cid_sanitiser), ('R16', ti.r16_extremum_polarity), ('R03b', bt.r03b_defeat_remaining), ('R00', cf.r00_helper_semantics)],
+      ('R28', ps.r28_strip_complete), ('R26', ps.r26_cid_sanitiser), ('R16', ti.r16_extremum_polarity), ('R03b', bt.r03b_defeat_remaining), ('R00', cf.r00_helper_semantics), ('R48', gs.r48_no_global_writer)],
      'Static analysis of /repo source: candidates are singled out for a decision only through the declared tie order (never '
      'by position, id or ballot order); withdrawn candidates are never in a selection that receives an action; every '
      'withdrawn id is removed from every rank at parse time; only validated ids can be marked withdrawn. ' + NOT_BEHAVIOUR,
@@ -262,7 +262,7 @@ prop('C06',
 
 prop('C10',
      [('R19', gr.r19_multiplier_last), ('R20', gr.r20_order_free_loops), ('R21', va.r21_scale_rounding), ('R29', ps.r29_ballot_count_pairing),
-      ('R26d', ps.r26d_tokenizer_precedence), ('R26', ps.r26_cid_sanitiser), ('R58', ps.r58_numbers_and_files), ('R00', cf.r00_helper_semantics), ('R55', gr.r55_qpq_stage), ('R49', gs.r49_per_election_objects)],
+      ('R26d', ps.r26d_tokenizer_precedence), ('R26', ps.r26_cid_sanitiser), ('R58', ps.r58_numbers_and_files), ('R00', cf.r00_helper_semantics), ('R55', gr.r55_qpq_stage), ('R49', gs.r49_per_election_objects), ('R48', gs.r48_no_global_writer)],
      'Static analysis: the ballot multiplier only ever multiplies a finished (already rounded) per-ballot quantity and the '
      'product only feeds additive accumulators; no weight or keep computation has the multiplier among its inputs; ballot '
      'loops only accumulate (no break/return, no plain store to shared state); additions are exact (R21), so neither the '
@@ -272,7 +272,7 @@ prop('C10',
      ['equality of whole records under re-presentation (metamorphic)', 'tokenizer layout/comment/nickname behaviour'])
 prop('C08',
      [('R00', cf.r00_helper_semantics), ('R10', mk.r10_residual_pairing), ('R10c', mk.r10c_keep_split), ('R11', mk.r11_keep_factors), ('R12', mk.r12_iteration_exits),
-      ('R14', qt.r14_elect_before_exclude), ('R04', lp.r04_loops), ('R21', va.r21_scale_rounding), ('R29', ps.r29_ballot_count_pairing), ('R19', gr.r19_multiplier_last), ('R20', gr.r20_order_free_loops), ('R22', va.r22_closure), ('R57', rr.r57_recorded_sources), ('R59', op.r59_enum_options)],
+      ('R14', qt.r14_elect_before_exclude), ('R04', lp.r04_loops), ('R21', va.r21_scale_rounding), ('R29', ps.r29_ballot_count_pairing), ('R19', gr.r19_multiplier_last), ('R20', gr.r20_order_free_loops), ('R22', va.r22_closure), ('R57', rr.r57_recorded_sources), ('R59', op.r59_enum_options), ('R48', gs.r48_no_global_writer)],
      'Static analysis of meek.py and meek_prf.py: in every block of the distribution loops the expressions credited to a '
      'tally are exactly those debited from the ballot residual, residuals start at the multiplier and are summed once per '
      'ballot, tallies and the round residual are zeroed first (with exact add/sub, R21, votes + residual = ballots); keep '
@@ -285,7 +285,7 @@ prop('C08',
 
 prop('C04',
      [('R00', cf.r00_helper_semantics), ('R13', qt.r13_quota), ('R14', qt.r14_elect_before_exclude), ('R02', cf.r02_elect_sites), ('R12', mk.r12_iteration_exits),
-      ('R21', va.r21_scale_rounding), ('R35', op.r35_forced_closure), ('R55', gr.r55_qpq_stage)],
+      ('R21', va.r21_scale_rounding), ('R35', op.r35_forced_closure), ('R55', gr.r55_qpq_stage), ('R48', gs.r48_no_global_writer)],
      'Static analysis of every rule: each quota expression, canonicalised, equals the form the property prescribes for the '
      'branch it is on (exact / truncated + one unit / integer floor + 1 / Meek from the votes still credited / QPQ); the '
      'election comparison is > exactly on exact branches and >= otherwise; epsilon is read only where the arithmetic has '
